@@ -330,10 +330,10 @@ Proof.
   - rewrite N.eqb_refl. reflexivity.
 Qed.
 
-Lemma prep_loop_spec h v cs mtu cm a :
+Lemma prep_loop_spec h v cs mtu cm u0 x0 :
   (h < 65536)%N -> (N.of_nat (length v) < 65536)%N ->
   forall n off ws s,
-    crashed s = false -> lookup (sdb s) h = Some a -> wq s = pend h ws -> off <= length v ->
+    crashed s = false -> lookup (sdb s) h = Some (AValue u0 x0) -> wq s = pend h ws -> off <= length v ->
     prep_loop n h v cs off (mkc mtu cm [] true) s
     = (None, mkc mtu cm [] true, set_wq s (pend h (ws ++ chunks n v cs off))).
 Proof.
@@ -433,7 +433,7 @@ Proof.
   intros Hc Hwq Hm (Hh0 & Hh & Hlk & Hp) Hw Hv.
   unfold write_long_nolock. cbn [mkc c_mtu].
   change {| c_mtu := mtu; c_cmtu := cm; c_q := []; c_locked := true |} with (mkc mtu cm [] true).
-  rewrite (prep_loop_spec h v (mtu - 5) mtu cm (AValue u old) Hh Hv _ 0 [] s); try assumption; try lia.
+  rewrite (prep_loop_spec h v (mtu - 5) mtu cm u old Hh Hv _ 0 [] s); try assumption; try lia.
   cbn [app].
   rewrite ask_spec by reflexivity.
   unfold server_step. cbn [set_wq crashed sdb wq]. unfold srv_execute.
@@ -490,7 +490,7 @@ Proof.
   intros Hc Hwq Hm (Hh0 & Hh & Hlk & Hp) Hw Hne Hv.
   unfold write_long_nolock. cbn [mkc c_mtu].
   change {| c_mtu := mtu; c_cmtu := cm; c_q := []; c_locked := true |} with (mkc mtu cm [] true).
-  rewrite (prep_loop_spec h v (mtu - 5) mtu cm (AValue u old) Hh Hv _ 0 [] s); try assumption; try lia.
+  rewrite (prep_loop_spec h v (mtu - 5) mtu cm u old Hh Hv _ 0 [] s); try assumption; try lia.
   cbn [app]. rewrite ask_spec by reflexivity.
   unfold server_step. cbn [set_wq crashed sdb wq]. unfold srv_execute.
   cbn [N.eqb Pos.eqb set_wq crashed sdb wq].
@@ -879,65 +879,84 @@ Qed.
 Lemma set_wq_nil s : wq s = [] -> set_wq s [] = s.
 Proof. destruct s; cbn. intros ->. reflexivity. Qed.
 
+(** what Prepare Write answers for a handle that does not hold a characteristic value *)
+Definition prep_refusal (r : option attr) : option N :=
+  match r with
+  | None => Some E_INVALID_HANDLE
+  | Some (AValue _ _) => None
+  | Some (ACccd _) => Some E_REQUEST_NOT_SUPP
+  | Some _ => Some E_WRITE_NOT_PERMITTED
+  end.
+
+(** a long write to anything but a characteristic value: the first Prepare Write is refused,
+    the error is raised, nothing is queued or stored; with no byte to write nothing is sent
+    but an Execute Write on an empty queue *)
+Lemma write_long_nolock_refused h v mtu cm s code :
+  wq s = [] -> 23 <= mtu -> (h < 65536)%N -> prep_refusal (lookup (sdb s) h) = Some code ->
+  write_long_nolock h v (mkc mtu cm [] true) s
+  = match v with
+    | [] => (Ok VTrue, mkc mtu cm [] true, set_wq (set_db s (sdb s)) [])
+    | _ => (Raise (EAtt code), mkc mtu cm [] true, s)
+    end.
+Proof.
+  intros Hwq Hm Hh Hr. destruct v as [|b v]; [now apply write_long_nolock_empty|].
+  unfold write_long_nolock. cbn [mkc c_mtu].
+  destruct (nb_chunks (length (b :: v)) (mtu - 5)) as [|n] eqn:En.
+  { apply nb_chunks_zero in En; [discriminate|lia]. }
+  cbn [prep_loop]. unfold xfer. cbn [encodable]. rewrite fits16_N by assumption.
+  cbn [N.of_nat fits16 N.ltb N.compare andb].
+  unfold server_step, srv_prepare.
+  destruct (lookup (sdb s) h) as [[]|]; cbn [prep_refusal] in Hr; try discriminate;
+    injection Hr as <-; cbn [deliver]; unfold wait, set_q;
+    cbn [c_q c_mtu c_cmtu c_locked app wait_in is_cmd_err acc_prep is_err]; reflexivity.
+Qed.
+
 Lemma write_long_nolock_usable h v mtu cm s :
   sinv s -> 23 <= mtu -> (h < 65536)%N -> (N.of_nat (length v) < 65536)%N ->
   exists o s', write_long_nolock h v (mkc mtu cm [] true) s = (o, mkc mtu cm [] true, s')
                /\ usable o /\ sinv s' /\ s_cmtu s' = s_cmtu s.
 Proof.
   intros Hs Hm Hh Hv. pose proof Hs as [Hc Hq [W1 W2] Hl].
-  destruct (lookup (sdb s) h) as [a|] eqn:Elk.
-  - (* the handle exists: every Prepare Write is echoed *)
+  destruct (prep_refusal (lookup (sdb s) h)) as [code|] eqn:Er.
+  - (* not a characteristic value: refused (or nothing to send) *)
+    rewrite (write_long_nolock_refused h v mtu cm s code Hq Hm Hh Er).
+    destruct v.
+    + eexists _, _. split; [reflexivity|]. split; [exact I|]. split; [|reflexivity].
+      constructor; cbn [crashed wq sdb set_db set_wq]; auto. exact (conj W1 W2).
+    + eexists _, _. split; [reflexivity|]. split; [exact I|]. split; [exact Hs|reflexivity].
+  - (* characteristic value: every Prepare Write is echoed *)
+    destruct (lookup (sdb s) h) as [[]|] eqn:Elk; cbn [prep_refusal] in Er; try discriminate.
+    rename uuid into u, v0 into old.
     unfold write_long_nolock. cbn [mkc c_mtu].
     change {| c_mtu := mtu; c_cmtu := cm; c_q := []; c_locked := true |} with (mkc mtu cm [] true).
-    rewrite (prep_loop_spec h v (mtu - 5) mtu cm a Hh Hv _ 0 [] s); try assumption; try lia.
+    rewrite (prep_loop_spec h v (mtu - 5) mtu cm u old Hh Hv _ 0 [] s); try assumption; try lia.
     cbn [app]. rewrite ask_spec by reflexivity.
     unfold server_step. cbn [set_wq crashed sdb wq]. unfold srv_execute.
     cbn [N.eqb Pos.eqb set_wq crashed sdb wq].
-    assert (Hcases : (exists u old, a = AValue u old) \/ (forall u x, a <> AValue u x)).
-    { destruct a; try (right; intros; discriminate). left; eauto. }
-    destruct Hcases as [(u & old & ->) | Hother].
-    + destruct (W1 _ _ _ Elk) as [p Hp].
-      destruct (writeable p) eqn:Hw.
-      * pose proof (nb_chunks_cover (length v) (mtu - 5) ltac:(lia)) as Hcov.
-        assert (Ha : apply_writes old (chunks (nb_chunks (length v) (mtu - 5)) v (mtu - 5) 0)
-                     = (v ++ skipn (length v) old, true)).
-        { change old with (firstn 0 v ++ skipn 0 old) at 1. apply apply_chunks; lia. }
-        rewrite (exec_pend _ _ _ _ _ _ _ Elk Hp Hw Ha).
-        cbn [fst snd ask_outcome acc_exec set_db set_wq sdb wq s_cmtu s_smtu crashed].
-        eexists _, _. split; [reflexivity|]. split; [exact I|]. split; [|reflexivity].
-        constructor; cbn [crashed wq sdb]; auto.
-        -- destruct (chunks _ _ _ _); [exact (conj W1 W2)|].
-           eapply wf_same_shape; [exact (conj W1 W2)|]. eapply same_shape_update_value; eauto.
-        -- destruct (chunks _ _ _ _); [assumption|].
-           pose proof (max_len_update (sdb s) h (AValue u (v ++ skipn (length v) old))) as Hmx.
-           pose proof (lookup_stored_le _ _ _ Elk) as Hle. cbn [stored_len] in Hmx, Hle.
-           rewrite app_length, skipn_length in Hmx. clear Hcov. cbn [sdb set_wq set_db]. lia.
-      * (* not writable: refused at execution unless nothing was queued *)
-        destruct (chunks (nb_chunks (length v) (mtu - 5)) v (mtu - 5) 0) as [|w ws] eqn:Ech.
-        -- cbn [pend exec_queues fst snd ask_outcome acc_exec set_db set_wq sdb wq s_cmtu s_smtu crashed].
-           eexists _, _. split; [reflexivity|]. split; [exact I|]. split; [|reflexivity].
-           constructor; cbn [crashed wq sdb]; auto. exact (conj W1 W2).
-        -- rewrite (exec_pend_denied _ _ _ _ _ _ Elk Hp Hw) by discriminate.
-           cbn [fst snd ask_outcome acc_exec set_db set_wq sdb wq s_cmtu s_smtu crashed].
-           eexists _, _. split; [reflexivity|]. split; [exact I|]. split; [|reflexivity].
-           constructor; cbn [crashed wq sdb]; auto. exact (conj W1 W2).
-    + rewrite (exec_pend_other _ _ _ _ Elk Hother).
+    destruct (W1 _ _ _ Elk) as [p Hp].
+    destruct (writeable p) eqn:Hw.
+    + pose proof (nb_chunks_cover (length v) (mtu - 5) ltac:(lia)) as Hcov.
+      assert (Ha : apply_writes old (chunks (nb_chunks (length v) (mtu - 5)) v (mtu - 5) 0)
+                   = (v ++ skipn (length v) old, true)).
+      { change old with (firstn 0 v ++ skipn 0 old) at 1. apply apply_chunks; lia. }
+      rewrite (exec_pend _ _ _ _ _ _ _ Elk Hp Hw Ha).
       cbn [fst snd ask_outcome acc_exec set_db set_wq sdb wq s_cmtu s_smtu crashed].
       eexists _, _. split; [reflexivity|]. split; [exact I|]. split; [|reflexivity].
-      constructor; cbn [crashed wq sdb]; auto. exact (conj W1 W2).
-  - (* unknown handle *)
-    unfold write_long_nolock. cbn [mkc c_mtu].
-    destruct (nb_chunks (length v) (mtu - 5)) as [|n] eqn:En; cbn [prep_loop].
-    + change {| c_mtu := mtu; c_cmtu := cm; c_q := []; c_locked := true |} with (mkc mtu cm [] true).
-      rewrite ask_spec by reflexivity.
-      unfold server_step. unfold srv_execute. cbn [N.eqb Pos.eqb]. rewrite Hq.
-      cbn [exec_queues fst snd ask_outcome acc_exec].
-      eexists _, _. split; [reflexivity|]. split; [exact I|]. split; [|reflexivity].
-      constructor; cbn [crashed wq sdb set_db set_wq]; auto. exact (conj W1 W2).
-    + unfold xfer. cbn [encodable]. rewrite fits16_N by assumption. cbn [N.of_nat fits16 N.ltb N.compare andb].
-      unfold server_step. unfold srv_prepare. rewrite Elk.
-      cbn [deliver]. unfold wait, set_q. cbn [c_q c_mtu c_cmtu c_locked app wait_in is_cmd_err acc_prep is_err].
-      eexists _, _. split; [reflexivity|]. split; [exact I|]. split; [assumption|reflexivity].
+      constructor; cbn [crashed wq sdb]; auto.
+      * destruct (chunks _ _ _ _); [exact (conj W1 W2)|].
+        eapply wf_same_shape; [exact (conj W1 W2)|]. eapply same_shape_update_value; eauto.
+      * destruct (chunks _ _ _ _); [assumption|].
+        pose proof (max_len_update (sdb s) h (AValue u (v ++ skipn (length v) old))) as Hmx.
+        pose proof (lookup_stored_le _ _ _ Elk) as Hle. cbn [stored_len] in Hmx, Hle.
+        rewrite app_length, skipn_length in Hmx. clear Hcov. cbn [sdb set_wq set_db]. lia.
+    + destruct (chunks (nb_chunks (length v) (mtu - 5)) v (mtu - 5) 0) as [|w ws] eqn:Ech.
+      * cbn [pend exec_queues fst snd ask_outcome acc_exec set_db set_wq sdb wq s_cmtu s_smtu crashed].
+        eexists _, _. split; [reflexivity|]. split; [exact I|]. split; [|reflexivity].
+        constructor; cbn [crashed wq sdb]; auto. exact (conj W1 W2).
+      * rewrite (exec_pend_denied _ _ _ _ _ _ Elk Hp Hw) by discriminate.
+        cbn [fst snd ask_outcome acc_exec set_db set_wq sdb wq s_cmtu s_smtu crashed].
+        eexists _, _. split; [reflexivity|]. split; [exact I|]. split; [|reflexivity].
+        constructor; cbn [crashed wq sdb]; auto. exact (conj W1 W2).
 Qed.
 
 (** ** any procedure, then any sequence of procedures *)
@@ -1416,24 +1435,54 @@ Proof.
   intros Hcl Hva Hw Hne Hv. apply (write_long_denied c s mtu h u old p v Hcl Hva Hw Hne Hv).
 Qed.
 
-(** a long write to an attribute that is not a characteristic value: success, nothing stored *)
-Lemma write_long_non_value c s mtu h a v :
-  clean c s mtu -> (h < 65536)%N -> lookup (sdb s) h = Some a -> (forall u x, a <> AValue u x) ->
-  (N.of_nat (length v) < 65536)%N ->
-  exists s', client_write_long h v c s = (Ok VTrue, c, s') /\ sdb s' = sdb s.
+(** a long write to anything but a characteristic value is refused by the first Prepare Write
+    (unknown handle: INVALID_HANDLE; CCCD: REQUEST_NOT_SUPPORTED; service, declaration, other
+    descriptor: WRITE_NOT_PERMITTED); nothing is queued, nothing stored.  Same for [write] when
+    the value takes the long path. *)
+Lemma write_long_non_value c s mtu h v code :
+  clean c s mtu -> (h < 65536)%N -> prep_refusal (lookup (sdb s) h) = Some code -> v <> [] ->
+  client_write_long h v c s = (Raise (EAtt code), c, s)
+  /\ (mtu - 3 < length v -> client_write h v c s = (Raise (EAtt code), c, s)).
 Proof.
-  intros [Hl Hq Hw Hc Hm1 Hm2 Hm] Hh Hlk Ha Hv.
+  intros [Hl Hq Hw Hc Hm1 Hm2 Hm] Hh Hr Hne.
   destruct c as [m cm q l]. cbn in Hl, Hq, Hm1. subst l q m.
-  unfold client_write_long, proclock, set_lock. cbn [c_locked c_mtu c_cmtu c_q].
-  change {| c_mtu := mtu; c_cmtu := cm; c_q := []; c_locked := true |} with (mkc mtu cm [] true).
-  unfold write_long_nolock. cbn [mkc c_mtu].
-  change {| c_mtu := mtu; c_cmtu := cm; c_q := []; c_locked := true |} with (mkc mtu cm [] true).
-  rewrite (prep_loop_spec h v (mtu - 5) mtu cm a Hh Hv _ 0 [] s); try assumption; try lia.
-  cbn [app]. rewrite ask_spec by reflexivity.
-  unfold server_step. cbn [set_wq crashed sdb wq]. unfold srv_execute.
-  cbn [N.eqb Pos.eqb set_wq crashed sdb wq].
-  rewrite (exec_pend_other _ _ _ _ Hlk Ha).
-  cbn [fst snd ask_outcome acc_exec releases mkc]. eexists. split; reflexivity.
+  pose proof (write_long_nolock_refused h v mtu cm s code Hw Hm Hh Hr) as H.
+  destruct v as [|b v]; [congruence|].
+  split.
+  - unfold client_write_long, proclock, set_lock. cbn [c_locked c_mtu c_cmtu c_q].
+    change {| c_mtu := mtu; c_cmtu := cm; c_q := []; c_locked := true |} with (mkc mtu cm [] true).
+    rewrite H. reflexivity.
+  - intros Hlen. unfold client_write, proclock, set_lock. cbn [c_locked c_mtu c_cmtu c_q].
+    replace (mtu - 3 <? length (b :: v)) with true by (symmetry; apply Nat.ltb_lt; lia).
+    change {| c_mtu := mtu; c_cmtu := cm; c_q := []; c_locked := true |} with (mkc mtu cm [] true).
+    rewrite H. reflexivity.
+Qed.
+
+(** a long write that reports success, whatever the handle holds: either the handle holds a
+    characteristic value, which now is the written bytes followed by what the old value had
+    beyond their length, or there was no byte to write and nothing changed *)
+Lemma write_long_success_any c s mtu h v c' s' :
+  clean c s mtu -> (h < 65536)%N -> h <> 0%N -> wf_db (sdb s) -> (N.of_nat (length v) < 65536)%N ->
+  client_write_long h v c s = (Ok VTrue, c', s') ->
+  (exists u old, lookup (sdb s) h = Some (AValue u old)
+                 /\ lookup (sdb s') h = Some (AValue u (v ++ skipn (length v) old))
+                 /\ (forall h', h' <> h -> lookup (sdb s') h' = lookup (sdb s) h'))
+  \/ (v = [] /\ sdb s' = sdb s).
+Proof.
+  intros Hcl Hh Hh0 [W1 W2] Hv He.
+  destruct (prep_refusal (lookup (sdb s) h)) as [code|] eqn:Er.
+  - right. destruct v as [|b v].
+    + rewrite (client_write_long_empty c s mtu h Hcl) in He. injection He as <- <-. split; reflexivity.
+    + destruct (write_long_non_value c s mtu h (b :: v) code Hcl Hh Er ltac:(discriminate)) as [H _].
+      rewrite H in He. discriminate.
+  - left. destruct (lookup (sdb s) h) as [[]|] eqn:Elk; cbn [prep_refusal] in Er; try discriminate.
+    rename uuid into u, v0 into old. destruct (W1 _ _ _ Elk) as [p Hp].
+    assert (Hva : value_at (sdb s) h u old p) by (repeat split; assumption).
+    rewrite (write_long_result c s mtu h u old p v Hcl Hva Hv) in He.
+    destruct (writeable p || (length v =? 0)%nat); [|discriminate]. injection He as <- <-.
+    exists u, old. split; [reflexivity|]. cbn [set_db set_wq sdb]. split.
+    + eapply lookup_update_same; eauto.
+    + intros. now apply lookup_update_other.
 Qed.
 
 (** procedures that cannot complete raise *)
